@@ -168,13 +168,24 @@ func decRun(e *decEnv, ai, ad bool, ops []string) (steps []decStep) {
 	if (len(e.input)+len(ops))%3 == 0 {
 		// a Decoder with a past: it has read part of another, longer stream (its buffer was
 		// refilled, it stands inside nested containers) and is then Reset onto this input
-		d = jsontext.NewDecoder(&scriptedReader{data: decoderPast, chunks: []int{13, 64, 1}})
-		for k := 0; k < 20+len(ops)%40; k++ {
-			if _, err := d.ReadToken(); err != nil {
-				break
+		pastPanic := ""
+		func() {
+			defer func() {
+				if r := recover(); r != nil {
+					pastPanic = "while reading the earlier stream: " + fmt.Sprint(r)
+				}
+			}()
+			d = jsontext.NewDecoder(&scriptedReader{data: decoderPast, chunks: []int{13, 64, 1}})
+			for k := 0; k < 20+len(ops)%40; k++ {
+				if _, err := d.ReadToken(); err != nil {
+					break
+				}
 			}
+			d.Reset(e.rd, jsontext.AllowInvalidUTF8(ai), jsontext.AllowDuplicateNames(ad))
+		}()
+		if pastPanic != "" && len(ops) > 0 { // reported as a panic of the first call
+			return []decStep{{Op: ops[0], Len: -1, Vok: true, Ptr: [][]int{}, Str: []int{}, Eptr: [][]int{}, Eoff: -1, Panic: pastPanic}}
 		}
-		d.Reset(e.rd, jsontext.AllowInvalidUTF8(ai), jsontext.AllowDuplicateNames(ad))
 	}
 	for i, op := range ops {
 		st := decStep{Op: op, Len: -1, Vok: true, Ptr: [][]int{}, Str: []int{}, Eptr: [][]int{}, Eoff: -1}
